@@ -110,8 +110,8 @@ class TmpFreshMachine(Machine):
         return [st] + viol
 
 
-def run(ctx):
-    chk = Check('C11', ctx)
+def run(ctx, host=None):
+    chk = host.sub('C11') if host is not None else Check('C11', ctx)
     prog, K, E = ctx.prog, ctx.kinds, ctx.effects
     R1 = chk.rule('C11.R1', 'delete: every unlink / DELETE is keyed by the requested keys; every chunk of the request reaches SELECT and DELETE', 4)
     R2 = chk.rule('C11.R2', 'delete: returned keys = loose files actually removed + index rows found, fetched before the rows are deleted', 2)
